@@ -8,7 +8,7 @@ V = Path(__file__).resolve().parent.parent
 sys.path.insert(0, str(V))
 
 TEXT = {
-    "C01": ("header-gate cube, read script, read-primitive contract, CRC gate (boolean structure), payload slice, single consumer",
+    "C01": ("header-gate cube, read script, read-primitive contract, CRC gate (boolean structure), payload slice, single consumer, what read() can return, socket wrapper FIFO and chunk-decoder conservation (shared C11/C12)",
             "behaviour of the caller-supplied stream object (read(n) returns <= n bytes in order)"),
     "C02": ("sync set, UBX/NMEA skip scripts, interval analysis of every read request (EOF discipline), loop exits",
             "socket/buffered stream behaviour (C11); inputs outside the property's class"),
@@ -16,17 +16,17 @@ TEXT = {
             "floating-point rounding of val*resolution; whether table widths are the standard's (C10)"),
     "C04": ("exception-escape analysis over the call graph with interval length facts, handler exhaustiveness, termination witnesses",
             "exceptions thrown by user-supplied streams/handlers/loggers; non-bytes payload arguments; run time"),
-    "C05": ("consume-before-validate dominance, CRC failure class in handler tuple, finite-mode dispatch folding, resumption",
+    "C05": ("consume-before-validate dominance, CRC failure class in handler tuple, finite-mode dispatch folding, resumption, what read() can return (shared C01-D7)",
             "that damage is detected at all (C08); counting over actual streams"),
-    "C06": ("shift amount linear form payblen-offset-width, exception not swallowed, single payload source, offset threading",
+    "C06": ("shift amount linear form payblen-offset-width, exception not swallowed, single payload source, offset threading, definition bit lengths vs the standards (shared C10-D5)",
             "truncations that remove only padding bits"),
-    "C07": ("serialize byte-concatenation normal form, len2bytes/crc2bytes forms, writer/reader size agreement, repr template",
+    "C07": ("serialize byte-concatenation normal form, len2bytes/crc2bytes forms, writer/reader size agreement, repr template, static parser built from its arguments only, identity from the payload bits (shared C15-D1)",
             "equality of attribute values after a round trip (follows from C13)"),
     "C08": ("exact GF(2) transfer function of the CRC loop body vs the generator matrix, generator algebra (degree, x+1 factor, order of x), gate, trailer taint",
             "nothing material for the helper; the gate is structural"),
     "C09": ("mask scan schema (MSB first, satellite-major), PRN/signal tables vs pinned RINEX codes, default shape of .get",
             "nothing material given D1-D4"),
-    "C10": ("definition DSL type checker: grammar, fields, scoping, dispatch, symbolic lengths vs standard formulas, sibling relations",
+    "C10": ("definition DSL type checker: grammar, fields, scoping, dispatch, symbolic lengths vs standard formulas, sibling relations, field windows and offset advance of the decoder (shared C03-D1/D5)",
             "transposition of equal-width fields in a message without sibling; resolution values"),
     "C11": ("FIFO discipline of the socket buffer: write inventory, read/return pairing, loop-exit guard, failure exits store nothing",
             "the schedule quantifier itself; OS socket semantics"),
@@ -37,7 +37,7 @@ TEXT = {
     "C14": ("typestate: __setattr__ guard dominates delegation, flag store post-dominates __init__, no bypass, payload getter",
             "callers mutating a bytearray payload they passed in"),
     "C15": ("identity bit-provenance, first fields, dispatch, stub path, MSM predicate over the finite id universe", "-"),
-    "C16": ("non-interference of the label option: taint reaches cell signal labels only; forwarding chain; single consumer", "-"),
+    "C16": ("non-interference of the label option: taint reaches cell signal labels only; forwarding chain; single consumer; mask-scan schema (shared C09-D1/D2)", "-"),
     "C17": ("control/data dependence on validate and parsed options; constructor does not touch the stream",
             "documented drop of frames failing to parse"),
     "C18": ("helper/table agreement: field coverage, name format, epoch map, guard subset of definitions, 4076_201 helper", "-"),
